@@ -291,6 +291,33 @@ def run(rep, tier, rng):
                                    "python": "import warnings, nengo_spa as spa\nwarnings.simplefilter('ignore')\ns = spa.Vocabulary(16); s.populate('A; B; C')\n"
                                              "t = spa.Vocabulary(16); t.populate('A')\ns.transform_to(t)\nassert list(s.keys()) == ['A', 'B', 'C'], list(s.keys())\n"})
 
+
+    # ---- a subset is a vocabulary of its own: whatever keys were selected, growing one never shows in the other ------------------
+    for al in algs.ALGS:
+        for sel in (["A", "B", "Cc"], ["A"], ["Cc", "A"], ["B", "Cc"]):
+            A = algs.alg_obj(al)
+            voc = spa.Vocabulary(d, algebra=A, pointer_gen=np.random.RandomState(1))
+            for i, k in enumerate(["A", "B", "Cc"]):
+                voc.add(k, np.array(script_vec(d, i), float))
+            sub = voc.create_subset(sel)
+            rep.case(("subset-independent", al, tuple(sel)))
+            rep.count("op_subset_independent")
+            problems = []
+            if list(sub.keys()) != sel or not all(np.array_equal(sub[k].v, voc[k].v) for k in sel):
+                problems.append(f"subset holds {list(sub.keys())}")
+            sub.add("New1", np.array(script_vec(d, 5), float))
+            if list(voc.keys()) != ["A", "B", "Cc"] or len(voc) != 3 or len(voc.vectors) != 3 or "New1" in voc:
+                problems.append(f"adding to the subset changed the original: keys {list(voc.keys())}, len {len(voc)}")
+            voc.add("New2", np.array(script_vec(d, 6), float))
+            if list(sub.keys()) != sel + ["New1"] or "New2" in sub or len(sub.vectors) != len(sel) + 1:
+                problems.append(f"adding to the original changed the subset: keys {list(sub.keys())}")
+            if problems:
+                rep.violation(f"create_subset({sel}) of a vocabulary with keys A, B, Cc is not an independent vocabulary ({al}): " + "; ".join(problems),
+                              {"case": {"alg": al, "keys": sel},
+                               "python": "import numpy as np, nengo_spa as spa\nv = spa.Vocabulary(16); v.populate('A; B; Cc')\n"
+                                         f"s = v.create_subset({sel!r}); s.populate('New1')\nassert list(v.keys()) == ['A', 'B', 'Cc'], list(v.keys())\n"
+                                         f"v.populate('New2')\nassert list(s.keys()) == {sel + ['New1']!r}, list(s.keys())\n"})
+
     firsts = c.coq_eval("C09", "cases", IMPORTS, exprs, ty="nat", shard=60)
     for fd, (al, strict, cops, snaps, pylog) in zip(firsts, cases):
         if fd == len(cops):
